@@ -296,9 +296,12 @@ impl PupRelation {
                                         Expr::col(sum_square_col),
                                         Expr::greatest(Expr::val(1.), Expr::col(count_col.clone())),
                                     ),
-                                    Expr::divide(
-                                        Expr::col(sum_col),
-                                        Expr::greatest(Expr::val(1.), Expr::col(count_col)),
+                                    Expr::pow(
+                                        Expr::divide(
+                                            Expr::col(sum_col),
+                                            Expr::greatest(Expr::val(1.), Expr::col(count_col)),
+                                        ),
+                                        Expr::val(2),
                                     ),
                                 ),
                             )),
@@ -331,9 +334,12 @@ impl PupRelation {
                                         Expr::col(sum_square_col),
                                         Expr::greatest(Expr::val(1.), Expr::col(count_col.clone())),
                                     ),
-                                    Expr::divide(
-                                        Expr::col(sum_col),
-                                        Expr::greatest(Expr::val(1.), Expr::col(count_col)),
+                                    Expr::pow(
+                                        Expr::divide(
+                                            Expr::col(sum_col),
+                                            Expr::greatest(Expr::val(1.), Expr::col(count_col)),
+                                        ),
+                                        Expr::val(2),
                                     ),
                                 ),
                             ),
